@@ -8,6 +8,7 @@ process group; `killpg(SIGKILL)` ends every member of the group; members stay in
 setsid/setpgid; dropping a tokio `Child` does not kill it).
 -/
 import CambrianModel.Model.F64
+import CambrianModel.Model.Generated
 namespace Cambrian.Proc
 open Cambrian
 
@@ -60,6 +61,26 @@ def evalProc (launchOk : Bool) (e : PEv) : Option EvalRes × List PAct :=
   | .timeout => (some .rejected, [.spawn, .killpg, .waitpid])
   | .abort => (some .rejected, [.spawn, .killpg, .waitpid])
   | .dropped => (none, [.spawn, .killpg, .waitpid])        -- `ProcGroupGuard::drop`
+
+/-- what `waitpid(leader)` answers after the group has been killed -/
+inductive WaitRes where
+  | reaped            -- `Ok(_)`
+  | alreadyReaped     -- `Err(ECHILD)`: the pending wait on the child (it may have closed its pipes long before) was first
+  | otherError
+  deriving DecidableEq, Repr
+
+/-- `kill_and_reap_child_proc_group` after a successful `killpg` (`echildOk`: the source treats ECHILD as reaped -
+    extracted; before fix fa38961 it did not, and a timed-out evaluation could fail the run) -/
+def reapResult (echildOk : Bool) : WaitRes → Option Fail
+  | .reaped => none
+  | .alreadyReaped => if echildOk then none else some .killFailed
+  | .otherError => some .killFailed
+
+/-- the result of an evaluation that is ended by its time limit or by the abort broadcast -/
+def endedResult (echildOk : Bool) (w : WaitRes) : EvalRes :=
+  match reapResult echildOk w with
+  | none => .rejected
+  | some f => .failed f
 
 /-- the argument vector of the child: `<program> <user args...> <JSON parameters> <seed>` -/
 def argvOf {α} (program : α) (userArgs : List α) (json seed : α) : List α :=
